@@ -1047,6 +1047,11 @@ func serving(c *an.Ctx, wr *watchRoles, rule string) {
 			addDonePairing(c, rule, k)
 		}
 	}
+	if wr.evLoop != nil && loopFn != nil {
+		// nothing the event loop does on its own goroutine can block for ever: a semaphore or queue it
+		// waits on must be released on every path of whoever holds it
+		boundedWaitsOpt(c, rule, []*ssa.Function{loopFn}, "the watcher's event loop", waitOpts{skip: func(f *ssa.Function) bool { return !wr.inW(f) }, onlyChans: true})
+	}
 	if wr.evLoop != nil {
 		// loop exits
 		loop := wr.evLoop
